@@ -69,8 +69,14 @@ func runCase(w *world, k kase, check string, verbose bool) [][2]string {
 	// every check: nobody may panic or hang (the deviator's own handler is honest code too)
 	for _, id := range w.spec.IDs {
 		pe := end.Parties[id]
+		if k.Menu == "state" && id == k.Deviator {
+			continue // its internal state was corrupted on purpose: what happens to it is not the library's concern
+		}
 		if pe.Panic != "" {
 			add(fmt.Sprintf("panic|%s|%s", cls, pe.Frame), fmt.Sprintf("party %s panicked: %s in %s\n%s", id, pe.Panic, pe.Frame, desc()))
+			if verbose {
+				fmt.Println(pe.Stack)
+			}
 		}
 		if pe.Hung {
 			add(fmt.Sprintf("hang|%s", cls), fmt.Sprintf("a handler call of party %s did not return\n%s", id, desc()))
